@@ -56,11 +56,11 @@ CLAIMS = {
         ref="DESIGN.md §4 C11"),
     "C12": dict(
         tech="static analysis: entry-value flag typestate (value at every exit = value at entry, incl. BaseException edges, re-entrancy via call-graph dispatch edges), class-object store census (ast + CFG + call graph)",
-        text="Decides that the flatten-mode flag and the '?' label have, at every exit of every function that sets them, the value they had on entry; that the context stack is balanced (C05.1); that annotation classes are immutable after construction; no check-time shared writes.",
+        text="Decides that the flatten-mode flag and the '?' label have, at every exit of every function that sets them, the value they had on entry; that the context stack is balanced (C05.1); that annotation classes are immutable after construction; no check-time shared writes; a failed check leaves no binding behind; loading a pickled annotation goes through no process-wide mutable table.",
         ref="DESIGN.md §4 C12"),
     "C13": dict(
         tech="static analysis: freshness (alias vs live top-of-stack) of the bindings reported on error paths, handler order for AnnotationError, stage wiring and cause-polarity truth table (ast + CFG + call graph)",
-        text="Decides that reported bindings denote the live top of the stack, AnnotationError handlers precede Exception handlers around both checks, parameter/return messages are wired to the right stage and raise TypeCheckError, cause polarity per raise site, blame in the same context, no leaked flatten flag / leaf label, no blame data memoised under a lossy rendering of the signature; which parameter is blamed is otherwise value-level and not decided.",
+        text="Decides that reported bindings denote the live top of the stack, AnnotationError handlers precede Exception handlers around both checks, parameter/return messages are wired to the right stage and raise TypeCheckError, cause polarity per raise site, blame in the same context, no leaked flatten flag / leaf label, no blame data memoised under a lossy rendering of the signature, the blame helper stops probing at the first failing parameter, a failed check leaves no binding that a later message would list; which parameter is blamed is otherwise value-level and not decided.",
         ref="DESIGN.md §4 C13"),
     "C14": dict(
         tech="static analysis: interprocedural may-raise census (only ValueError from construction), guard-dominance for partial operations on the user's spec, modifier-loop and legality-matrix extraction vs the documented one (ast + CFG)",
@@ -68,7 +68,7 @@ CLAIMS = {
         ref="DESIGN.md §4 C14"),
     "C15": dict(
         tech="static analysis: reaching-definition and order agreement in the nesting branch, union/TypeVar table, scalar-ladder prefix agreement, lazy aliases vs docs code block (ast)",
-        text="Decides agreement clauses only: nested dims/dim_str concatenated outer-first with index_variadic shifted by the outer length, dtype intersection, ValueError on double variadic/empty intersection; union members built with the same category/spec; TypeVar table; scalar ladder (incl. the dim-kind table of the rank-0 test over all six kinds of dim objects); aliases equal the documented definitions.",
+        text="Decides agreement clauses only: nested dims/dim_str concatenated outer-first with index_variadic shifted by the outer length, dtype intersection, ValueError on double variadic/empty intersection; every union member built through _make_array with the same category/spec (a member passed on raw is a witness); TypeVar table; scalar ladder (incl. the dim-kind table of the rank-0 test over all six kinds of dim objects); aliases equal the documented definitions.",
         ref="DESIGN.md §4 C15"),
     "C16": dict(
         tech="static analysis: '?'-label typestate with guard-correlated product states and re-entrancy (call-graph dispatch edges), sibling agreement of treepath prefixing, label-template key disjointness (ast + CFG)",
@@ -76,19 +76,19 @@ CLAIMS = {
         ref="DESIGN.md §4 C16"),
     "C17": dict(
         tech="static analysis: information-flow census of every use of the checked value (only isinstance / hasattr / .shape / .dtype / forwarding) in the check functions and wrappers (ast def-use)",
-        text="Non-interference: the checked value is observed only through its type, .shape and .dtype, so no element value can influence a verdict and a tracer is never concretised by jaxtyping; the argument memo keeps every bound argument whatever its value; behaviour of jax transformations is trusted.",
+        text="Non-interference: the checked value is observed only through its type, .shape and .dtype, so no element value can influence a verdict and a tracer is never concretised by jaxtyping; the argument memo keeps every bound argument whatever its value (values handed to new helpers and loop variables over the bound arguments are followed); behaviour of jax transformations is trusted.",
         ref="DESIGN.md §4 C17"),
     "C18": dict(
         tech="static analysis: cache-tag composition, hash determinism (hashlib only), extent of the cache_from_source patch against a table of loader methods that execute module code, must-pass-through-the-transformer for every return of source_to_code (ast + CFG dominance)",
-        text="Decides that the cache tag carries a version literal and the per-loader typechecker hash, the hash is a deterministic digest, the patched region executes no module code, source validation is not bypassed, every code object source_to_code returns was compiled from the transformed tree, and nothing run from source_to_code (which importlib calls inside the patched region) imports or executes a module named at run time.",
+        text="Decides that the cache tag carries a version literal and the per-loader typechecker hash, the hash is a deterministic digest, the patched region executes no module code, source validation is not bypassed, every code object source_to_code returns was compiled from the transformed tree, nothing run from source_to_code (which importlib calls inside the patched region) imports or executes a module named at run time, and no memo of compiled code shared between hooks is keyed without the loader's typechecker.",
         ref="DESIGN.md §4 C18"),
     "C19": dict(
         tech="static analysis: dominance of the disable guard over bind/push/checks, truth table of the guard over its three atoms, branch table of _maybestr2bool vs the statement, env->update->attribute wiring (ast + CFG)",
-        text="Decides that the pass-through is taken iff at least one switch is on, is read per call, dominates every check; the switch parser equals the table in the statement (constant tables of spellings followed); the environment variable is wired to the attribute the wrapper reads, no other key writes it, lazily loaded settings do not reload it.",
+        text="Decides that the pass-through is taken iff at least one switch is on, is read per call (never at decoration time nor when a hooked module is imported / instrumented), dominates every check; the switches live in one process-wide object (no thread-local / context-local store); the switch parser equals the table in the statement (constant tables of spellings followed); the environment variable is wired to the attribute the wrapper reads, no other key writes it, lazily loaded settings do not reload it.",
         ref="DESIGN.md §4 C19"),
     "C20": dict(
         tech="static analysis: reducer registration, no-sentinel-on-the-wire, determinacy of every class-dict field from what the reducer replays (ast def-use)",
-        text="Decides that a reducer is registered for the metaclass at import time, replays only picklable fields, and that every attribute of an annotation class is a function of what the reducer replays (constructor arguments), including nested annotations; by-reference resolvability of categories (C03.1a); no verdict table keyed by id()/str()/name of something a reloaded copy owns.",
+        text="Decides that a reducer is registered for the metaclass at import time, replays only picklable fields, and that every attribute of an annotation class is a function of what the reducer replays (constructor arguments), including nested annotations; by-reference resolvability of categories (C03.1a); no verdict table keyed by id()/str()/name of something a reloaded copy owns; nothing but plain literals is put on an annotation class after it was created (by-value serialisers ship the namespace).",
         ref="DESIGN.md §4 C20"),
 }
 
